@@ -13,6 +13,7 @@ import (
 	"verif/internal/c08"
 	"verif/internal/c09"
 	"verif/internal/c11"
+	"verif/internal/c13"
 	"verif/internal/c15"
 	"verif/internal/c19"
 )
@@ -27,12 +28,17 @@ func init() {
 	monitors["C08"] = c08.Run
 	monitors["C09"] = c09.Run
 	monitors["C11"] = c11.Run
+	monitors["C13"] = c13.Run
 	monitors["C15"] = c15.Run
 	monitors["C19"] = c19.Run
 }
 
 // workerMain dispatches crash-isolated child workers (C13, C14, C15).
 func workerMain(args []string) {
+	if len(args) > 0 && args[0] == "c13" {
+		c13.Worker(args[1:])
+		return
+	}
 	if len(args) > 0 && args[0] == "c15" {
 		c15.Worker(args[1:])
 		return
